@@ -59,7 +59,18 @@ Definition case_yaml (input obs : json) : verdict :=
            | Err => JObj [("o", JStr "err")] end in
   let nt := jbool (jget "nontrivial" input) in
   let expect_ok := jbool (jget "expect_ok" input) in
-  let v1 := decide (if expect_ok then yaml_oracle input else (fun o => if obs_is "panic" o then Some "parse_yaml panics" else None))
+  (* tags in places the library does not support: refusing is fine; an answer must carry the untagged claims *)
+  let lenient (o : json) : option string :=
+    if obs_is "panic" o then Some "parse_yaml panics"
+    else if obs_is "ok" o then
+      match obs_val o with
+      | JArr [c; _] => if json_eqb c (jget "claims" input) then None
+                       else Some "claims differ from the document without its tags (a tag was turned into data)"
+      | _ => Some "unreadable outcome" end
+    else None in
+  let v1 := decide (if expect_ok then yaml_oracle input
+                    else if String.eqb (jstr_or_empty (jget "expect_ok" input)) "if_ok_then_untagged" then lenient
+                    else (fun o => if obs_is "panic" o then Some "parse_yaml panics" else None))
                    (jget "parse" obs) m nt "parse_yaml" in
   if expect_ok && negb (match jlist (jget "paths" input) with [] => true | _ => false end) then
     match jget "roundtrip" obs with
